@@ -80,6 +80,21 @@ fn base() -> (u64, usize) {
     // ops
     put!(Lerp::lerp(10u8, 20u8, 0.5f32)); put!(<f32 as Lerp<f32>>::lerp_unclamped_precise(1.0, 3.0, 2.0)); put!(5i32.clamped(0, 3)); put!((-3i32).wrapped(5)); put!(7i32.pingpong(5)); put!(3i32.is_between(1, 3));
     put!(LinearTransition::<i32, f32>::with_mapper_and_progress(10, 20, IdentityProgressMapper, 0.5).current());
+    // layout facts: a feature must not change the size, alignment or packing of the always-present types
+    {
+        use std::mem::{align_of, size_of};
+        macro_rules! layout { ($($T:ty),+ $(,)?) => {$( put!((size_of::<$T>(), align_of::<$T>())); )+}; }
+        layout!(Vec2<u8>, Vec3<u8>, Vec4<u8>, Vec2<i16>, Vec3<i16>, Vec4<i16>, Vec2<f32>, Vec3<f32>, Vec4<f32>, Vec2<f64>, Vec3<f64>, Vec4<f64>, Vec4<bool>, Vec4<u64>);
+        layout!(Extent2<u8>, Extent3<u16>, Extent2<f32>, Extent3<f64>, Quaternion<f32>, Quaternion<f64>, Transform<f32, f32, f32>);
+        layout!(Mat2<u8>, Mat3<u8>, Mat4<u8>, Mat2<f32>, Mat3<f32>, Mat4<f32>, Mat4<f64>, Mat4<i16>);
+        layout!(vek::mat::repr_c::row_major::Mat2<u8>, vek::mat::repr_c::row_major::Mat3<i16>, vek::mat::repr_c::row_major::Mat4<u8>, vek::mat::repr_c::row_major::Mat4<f32>);
+        layout!(Aabr<u8>, Aabb<f32>, Rect<u8, u8>, Rect3<i16, i16>, Disk<f32, f32>, Sphere<f64, f64>, Ray<f32>, LineSegment2<f32>, LineSegment3<u8>, CubicBezier2<f32>, QuadraticBezier3<f64>, FrustumPlanes<f32>);
+        put!(Mat4::<u8>::identity().is_packed()); put!(Mat4::<i16>::identity().is_packed()); put!(Mat3::<u8>::identity().is_packed()); put!(Mat2::<u64>::identity().is_packed());
+        put!(vek::mat::repr_c::row_major::Mat4::<u8>::identity().is_packed()); put!(vek::mat::repr_c::row_major::Mat3::<i16>::identity().is_packed());
+        put!(Mat4::<u8>::identity().as_col_slice().len()); put!(vek::mat::repr_c::row_major::Mat4::<i16>::identity().as_row_slice().len());
+        let arr = [Vec4::new(1u8, 2, 3, 4), Vec4::new(5, 6, 7, 8)];
+        put!((&arr[1] as *const _ as usize) - (&arr[0] as *const _ as usize));
+    }
     (h.0, n)
 }
 
